@@ -2,11 +2,21 @@
 
 A case is {"cfg": {...}, "ops": [...]}:
   cfg  = decor ∈ early|soft|fail|hit, ttl / inner (early_ttl or soft_ttl) in ticks of 1/8 s, hits (cache_hits),
-         upd (update_after), bg (background) 0|1, store ∈ plain|purge|pickle (how `mem://` is set up)
-  ops  = "call <arg> <ok|lis|unl>"   one call of the decorated function with argument <arg> (a|b); the outcome is what
-                                    the wrapped function does IF this call executes it in the foreground
+         upd (update_after), bg (background) 0|1, store ∈ plain|purge|pickle (how `mem://` is set up),
+         mode ∈ default|script (optional, default "default"): with "script" the decorator gets a user `condition`
+         (scripted_condition), failover/soft get a callable `ttl` (evaluated with the result), and the cache gets a
+         middleware that can refuse a SET — the three ways the STORE STEP that follows a successful execution can fail
+  ops  = "call <arg> <outcome>"     one call of the decorated function with argument <arg> (a|b); the outcome is what
+                                    the wrapped function (and the store step after it) does IF this call executes it in
+                                    the foreground
          "adv <ticks>"              virtual time passes
-         "done <arg> <i> <ok|lis|unl>"  the i-th oldest background refresh in flight for <arg> completes with that outcome
+         "done <arg> <i> <outcome>" the i-th oldest background refresh in flight for <arg> completes with that outcome
+  outcome = ok | lis | unl          the function returns (and its result is stored) | raises a listed | an unlisted exception
+          | rej                     (mode script) the function returns a result that the condition turns down (returns False)
+          | cL cU | tL tU | sL sU   (mode script) the function returns a result on which the condition raises | the callable
+                                    ttl raises (failover / soft only: early evaluates a callable ttl before executing and
+                                    without the result, hit cannot be given one) | backend.set is refused by the middleware —
+                                    with a Listed (L) / Unlisted (U) exception
 
 The wrapped function returns (completion tick, execution ordinal for that argument): served age is read off the value.
 A background refresh (a task other than the harness's own) parks on a future until its `done` op, so that
@@ -42,6 +52,65 @@ class Unlisted(Exception):
     pass
 
 
+class StoreListed(Listed):
+    """raised by the store step (condition / callable ttl / SET middleware); is one of the decorator's `exceptions`"""
+
+
+class StoreUnlisted(Unlisted):
+    """raised by the store step; is not one of the decorator's `exceptions`"""
+
+
+RETURNS = ("ok", "rej", "cL", "cU", "tL", "tU", "sL", "sU")      # the function itself returns
+STORE_FAILS = ("cL", "cU", "tL", "tU", "sL", "sU")                # ... and the store step raises
+MODEL_OUTCOME = {"ok": "ok", "lis": "lis", "unl": "unl", "rej": "rej", "cL": "preL", "cU": "preU", "tL": "preL",
+                 "tU": "preU", "sL": "setL", "sU": "setU"}
+
+
+def _flag_of(value):
+    """the script's instruction carried by a result token `(tick, ordinal, flag)`, also when it sits in the
+    `[deadline, result]` pair that early / soft store"""
+    if isinstance(value, list) and len(value) == 2:
+        value = value[1]
+    if isinstance(value, tuple) and len(value) == 3 and isinstance(value[2], str):
+        return value[2]
+    return None
+
+
+def _store_exc(flag):
+    return (StoreListed if flag[1] == "L" else StoreUnlisted)("store step: " + flag)
+
+
+def scripted_condition(result, args, kwargs, key=None):
+    """a user `condition`: turns down the results flagged `rej`, chokes on the results flagged `cL` / `cU`, stores the
+    rest (early / hit also show it the exception of a failed execution: like the default it says True, nothing is stored)"""
+    flag = _flag_of(result)
+    if flag == "rej":
+        return False
+    if flag in ("cL", "cU"):
+        raise _store_exc(flag)
+    return True
+
+
+def scripted_ttl(seconds):
+    """a callable `ttl` (failover / soft evaluate it with the result when they store): chokes on results flagged `tL` / `tU`"""
+    def ttl(arg, result=None):
+        flag = _flag_of(result)
+        if flag in ("tL", "tU"):
+            raise _store_exc(flag)
+        return seconds
+    return ttl
+
+
+async def set_guard(call, cmd, backend, *args, **kwargs):
+    """a user middleware refusing the SET of the values flagged `sL` / `sU`"""
+    from cashews.commands import Command
+    if cmd == Command.SET:
+        flag = _flag_of(kwargs.get("value", args[1] if len(args) > 1 else None))
+        if flag in ("sL", "sU"):
+            raise _store_exc(flag)
+    return await call(*args, **kwargs)
+
+
 STORES = {
     "plain": "mem://?check_interval=0",
     "purge": "mem://?check_interval=1",
@@ -58,14 +127,19 @@ def case_line(cfg) -> str:
 def wrap(cache, cfg, f):
     d = cfg["decor"]
     ttl, inner = cfg["ttl"] / 8, cfg["inner"] / 8
+    extra = {}
+    if cfg.get("mode", "default") == "script":
+        extra["condition"] = scripted_condition
+        if d in ("soft", "fail"):
+            ttl = scripted_ttl(ttl)
     if d == "early":
-        return cache.early(ttl=ttl, early_ttl=inner, background=bool(cfg["bg"]), protected=False)(f)
+        return cache.early(ttl=ttl, early_ttl=inner, background=bool(cfg["bg"]), protected=False, **extra)(f)
     if d == "soft":
-        return cache.soft(ttl=ttl, soft_ttl=inner, exceptions=(Listed,), protected=False)(f)
+        return cache.soft(ttl=ttl, soft_ttl=inner, exceptions=(Listed,), protected=False, **extra)(f)
     if d == "fail":
-        return cache.failover(ttl=ttl, exceptions=(Listed,))(f)
+        return cache.failover(ttl=ttl, exceptions=(Listed,), **extra)(f)
     if d == "hit":
-        return cache.hit(ttl=ttl, cache_hits=cfg["hits"], update_after=cfg["upd"], background=bool(cfg["bg"]))(f)
+        return cache.hit(ttl=ttl, cache_hits=cfg["hits"], update_after=cfg["upd"], background=bool(cfg["bg"]), **extra)(f)
     raise HarnessError(f"unknown decorator {d}")
 
 
@@ -104,6 +178,12 @@ async def wrapped_function(arg):
     rec["outcome"] = out
     if out == "ok":
         return (rec["end"], n)
+    if out in RETURNS:
+        if ctx.cfg.get("mode", "default") != "script":
+            raise HarnessError(f"outcome {out} needs cfg mode=script")
+        return (rec["end"], n, out)          # the store step reads the flag off the result
+    if out not in ("lis", "unl"):
+        raise HarnessError(f"bad outcome {out!r}")
     raise (Listed if out == "lis" else Unlisted)(out)
 
 
@@ -123,7 +203,10 @@ async def _execute(cfg, ops):
     loop.SPIN = 10 ** 12                      # no spontaneous ticks: this coroutine never blocks
     loop.set_exception_handler(lambda l, ctx: None)   # a failing background refresh is never awaited by cashews
     cache = Cache()
-    cache.setup(STORES[cfg["store"]])
+    if cfg.get("mode", "default") == "script":
+        cache.setup(STORES[cfg["store"]], middlewares=(set_guard,))
+    else:
+        cache.setup(STORES[cfg["store"]])
     await cache.init()
     ctx = _Ctx(cfg, loop, asyncio.current_task())
     global _CTX
@@ -143,10 +226,14 @@ async def _execute(cfg, ops):
             infl_before = [(i, s) for i, _, s in gates[arg]]
             try:
                 r = await g(arg)
-                if isinstance(r, tuple) and len(r) == 2 and all(isinstance(x, int) for x in r):
+                if isinstance(r, tuple) and len(r) in (2, 3) and all(isinstance(x, int) for x in r[:2]):
                     res = ("val", r[0], r[1])
                 else:
                     res = ("other", repr(r))
+            except StoreListed:
+                res = ("storeerr", "lis")
+            except StoreUnlisted:
+                res = ("storeerr", "unl")
             except Listed:
                 res = ("raised", "lis")
             except Unlisted:
@@ -162,8 +249,8 @@ async def _execute(cfg, ops):
             if res[0] == "val":
                 fresh = any(e["arg"] == arg and e["id"] == res[2] and e["end"] == res[1] for e in ran)
                 shown = ("fresh" if fresh else "stored") + f":{res[1]}:{res[2]}"
-            elif res[0] == "raised":
-                shown = "raised:" + res[1]
+            elif res[0] in ("raised", "storeerr"):
+                shown = res[0] + ":" + res[1]
             else:
                 shown = "other:" + res[1]
             x = len(ran)
@@ -186,7 +273,7 @@ async def _execute(cfg, ops):
                 n, fut, start = gates[arg].pop(i)
                 fut.set_result(o)
                 await _quiesce()
-                shown = "stored" if o == "ok" else "failed"
+                shown = "stored" if o == "ok" else ("skipped" if o == "rej" else "failed")
                 events.append({"op": line, "kind": "done", "arg": arg, "t": t, "id": n, "start": start, "outcome": o,
                                "res": shown, "n": len(gates[arg]), "impl": f"{shown} n={len(gates[arg])}"})
             else:
@@ -219,7 +306,9 @@ def project(ops, events, arg):
             lines.append(line)
             idx.append(i)
         elif w[1] == arg:
-            lines.append(" ".join([w[0]] + w[2:]))
+            if w[-1] not in MODEL_OUTCOME:
+                raise HarnessError(f"bad outcome in {line!r}")
+            lines.append(" ".join([w[0]] + w[2:-1] + [MODEL_OUTCOME[w[-1]]]))
             idx.append(i)
     return lines, idx
 
@@ -269,6 +358,8 @@ def oracle(cfg, events):
     since = {}           # arg -> calls since the last store (hit)
     sequential = {}      # arg -> no call was made while a refresh was in flight (hit)
     started = {}         # (arg, execution id) -> index of the call that started that background refresh
+    prev_rej = {}        # arg -> the previous call for this argument returned a result the condition turned down
+    reset_kept = {}      # arg -> hit: a refused SET deleted the counter while an older result stayed stored
 
     def bad(i, sig, text):
         problems.append((i, sig, text))
@@ -279,10 +370,21 @@ def oracle(cfg, events):
         arg = ev["arg"]
         t = ev["t"]
         if ev["kind"] == "done":
+            if ev["res"] != "noop" and ev["outcome"] in STORE_FAILS:
+                seen.add("bg_refresh_store_step_failed")
+            if ev["res"] == "skipped":
+                seen.add("bg_refresh_result_rejected")
+            if ev["res"] == "failed" and ev["outcome"] in ("sL", "sU") and d == "hit":
+                # the refresh got as far as `gather(delete(counter), set(...))`: the counter is gone, the older result stays
+                since[arg] = 0
+                run2[arg] = 0
+                if last.get(arg) and t - last[arg][0] < ttl:
+                    reset_kept[arg] = True
             if ev["res"] == "stored":
                 last[arg] = (t, ev["id"])
                 since[arg] = 0
                 run2[arg] = 0
+                reset_kept[arg] = False
                 seen.add("bg_refresh_stored")
                 j0 = started.get((arg, ev["id"]), i)
                 if any(e2["kind"] == "call" and e2["arg"] == arg for e2 in events[j0 + 1:i]):
@@ -302,6 +404,29 @@ def oracle(cfg, events):
         age = t - L[0] if L else None
         if kind == "other":
             bad(i, "unexpected-result", f"call returned/raised something outside the alphabet: {res}")
+        # ---- the store step after a successful execution (all four strategies)
+        own = x == 1 and o in RETURNS          # the function ran inside this call and returned
+        if kind == "storeerr":
+            want = "lis" if o[-1] == "L" else "unl"
+            if not (x == 1 and o in STORE_FAILS and res == "storeerr:" + want):
+                bad(i, "unexpected-result", f"the call raised a store-step exception ({res}) that the script did not raise "
+                                            f"in this call (outcome {o}, executed {x})")
+        if own and o in STORE_FAILS:
+            seen.add("store_step_failed")
+            seen.add({"c": "store_step_failed_in_condition", "t": "store_step_failed_in_callable_ttl",
+                      "s": "store_step_failed_in_backend_set"}[o[0]])
+            seen.add("store_step_raised_listed_exception" if o[1] == "L" else "store_step_raised_unlisted_exception")
+            if L and age < ttl:
+                seen.add("store_step_failed_while_older_result_stored")
+                if o[1] == "L":
+                    seen.add("store_step_raised_LISTED_while_older_result_stored")
+        if own and o == "rej":
+            seen.add("condition_rejected_result")
+            if L and age < ttl:
+                seen.add("condition_rejected_result_while_older_result_stored")
+        if prev_rej.get(arg) and x == 1:
+            seen.add("call_after_rejected_result_executes")
+        prev_rej[arg] = own and o == "rej"
         if kind == "fresh" and (x != 1 or val[0] != t):
             bad(i, "fresh-not-fresh", f"a result reported as fresh was not produced by this call: {res}")
         if kind == "stored" and val != L:
@@ -313,10 +438,12 @@ def oracle(cfg, events):
             if L and age < inner and age < ttl and not (res == f"stored:{L[0]}:{L[1]}" and x == 0 and b == 0):
                 bad(i, "early-young-not-served", f"stored result aged {age} < early_ttl={inner} but the call gave {res} x={x} b={b}")
             if L and age < ttl and res != f"stored:{L[0]}:{L[1]}":
-                if (not bg) and kind == "raised" and x == 1 and age >= inner:
+                if (not bg) and kind in ("raised", "storeerr") and x == 1 and age >= inner:
                     bad(i, D19, f"background=False: the refresh raised and the call raised too instead of answering "
                                f"from the store (stored result aged {age}, early_ttl={inner}, ttl={ttl})")
                     seen.add("foreground_refresh_failed")
+                    if kind == "storeerr":
+                        seen.add("foreground_refresh_store_step_failed")
                 else:
                     bad(i, "early-not-from-store", f"stored result aged {age} < ttl={ttl} but the call gave {res}")
             tm = timely.get(arg, True) and all(t < s + inner for _, s in ev["infl_before"])
@@ -345,7 +472,9 @@ def oracle(cfg, events):
                 if x == 0 and a > inner:
                     bad(i, "soft-stale-without-recompute", f"served a result aged {a} > soft_ttl={inner} without executing")
                 if x == 1 and not (o == "lis" and a < ttl):
-                    bad(i, "soft-stale-wrongly-served", f"served the stored result aged {a} after an execution with outcome {o} (ttl={ttl})")
+                    why = (" — the function RETURNED; what failed (or was decided) afterwards is the store step, whose "
+                           "error must surface instead of the stale value") if o in RETURNS else ""
+                    bad(i, "soft-stale-wrongly-served", f"served the stored result aged {a} after an execution with outcome {o} (ttl={ttl}){why}")
                 if x == 1:
                     seen.add("stale_served_on_listed")
             if L and age == inner:
@@ -362,7 +491,9 @@ def oracle(cfg, events):
             if kind == "stored":
                 a = t - val[0]
                 if not (o == "lis" and a < ttl):
-                    bad(i, "failover-stored-wrongly-served", f"returned the stored result aged {a} although outcome={o}, ttl={ttl}")
+                    why = (" — the function RETURNED without raising; what raised is the store step after it (condition / "
+                           "callable ttl / backend.set), whose error must surface instead of the older value") if o in RETURNS else ""
+                    bad(i, "failover-stored-wrongly-served", f"returned the stored result aged {a} although outcome={o}, ttl={ttl}{why}")
                 seen.add("stored_served_on_listed")
             if L and age == ttl and o == "lis":
                 seen.add("listed_failure_exactly_at_ttl")
@@ -385,16 +516,25 @@ def oracle(cfg, events):
             if r2 > hits:
                 bad(i, "hit-too-many-serves", f"{r2} serves since the last execution event (cache_hits={hits})")
             due = live and upd != 0 and k == upd and upd <= hits
+            if x == 1 and kind == "stored" and not (due and not bg):
+                bad(i, "hit-stored-after-own-execution", f"the call executed the function as its own computation (hit count {k}, cache_hits={hits}, "
+                                                         f"no foreground refresh due; outcome {o}) and was answered with the stored result {res}")
             if bg:
                 if (b == 1) != due:
                     bad(i, "hit-refresh-timing", f"refresh started={b} at hit count {k} (update_after={upd}, stored={live})")
             else:
                 if due and x != 1:
                     bad(i, "hit-refresh-timing", f"no refresh at hit count {k} = update_after")
-                if kind == "stored" and x == 1 and not due:
-                    bad(i, "hit-refresh-timing", f"refresh at hit count {k} != update_after={upd}")
-            if x == 1 and o == "ok":
+            if x == 1 and o in ("ok", "sL", "sU"):
+                # the execution got as far as `gather(delete(counter), set(...))`
                 since[arg] = 0
+                if o != "ok" and live:
+                    reset_kept[arg] = True
+                    seen.add("refused_set_deleted_counter_older_result_stays")
+            if x == 1 and o == "ok":
+                reset_kept[arg] = False
+            if kind == "stored" and x == 0 and reset_kept.get(arg):
+                seen.add("older_result_served_again_after_refused_set")
             if kind == "stored" and k == hits:
                 seen.add("last_allowed_serve")
             if live and k == hits + 1:
@@ -424,6 +564,19 @@ INNERS = [4, 8, 32]      # ½ s, 1 s, 4 s
 HITS = [1, 2, 3]
 UPDS = [0, 1, 2]
 OUTCOMES = ["ok", "ok", "ok", "lis", "unl"]
+# mode script: also results the condition turns down and store steps that raise (condition / callable ttl / SET)
+SCRIPT_EXTRA = {
+    "fail": ["rej", "cL", "cU", "tL", "tU", "sL", "sU"],
+    "soft": ["rej", "cL", "cU", "tL", "tU", "sL", "sU"],
+    "early": ["rej", "cL", "cU", "sL", "sU"],
+    "hit": ["rej", "cL", "cU", "sL", "sU"],
+}
+
+
+def outcomes_for(cfg):
+    if cfg.get("mode", "default") != "script":
+        return OUTCOMES
+    return OUTCOMES + ["ok", "lis"] + SCRIPT_EXTRA[cfg["decor"]]
 
 
 def gen_cfg(rng, decor=None):
@@ -436,6 +589,7 @@ def gen_cfg(rng, decor=None):
         "upd": rng.choice(UPDS) if d == "hit" else 0,
         "bg": rng.choice([0, 1]) if d in ("early", "hit") else 0,
         "store": rng.choice(["plain", "plain", "purge", "pickle"]),
+        "mode": rng.choice(["default", "script"]),
     }
 
 
@@ -456,6 +610,7 @@ def gen_ops(rng, cfg, maxlen=14):
     n = rng.randint(1, maxlen)
     nargs = 1 if rng.random() < 0.75 else 2
     G = gaps(cfg)
+    OUT = outcomes_for(cfg)
     ops = []
     now = 0
     mark = {a: 0 for a in ARGS}      # instant of the latest possible store per argument
@@ -477,13 +632,13 @@ def gen_ops(rng, cfg, maxlen=14):
         elif r < 0.60 and cfg["bg"]:
             if infl[arg] or rng.random() < 0.1:
                 i = 0 if rng.random() < 0.7 else 1
-                o = rng.choice(OUTCOMES)
+                o = rng.choice(OUT)
                 ops.append(f"done {arg} {i} {o}")
                 if o == "ok":
                     mark[arg] = now
                 infl[arg] = max(0, infl[arg] - 1)
         else:
-            o = rng.choice(OUTCOMES)
+            o = rng.choice(OUT)
             ops.append(f"call {arg} {o}")
             if o == "ok" and rng.random() < 0.6:
                 mark[arg] = now
@@ -510,6 +665,23 @@ ENUM = [
      ["call a ok", "call a lis", "adv 15", "adv 1", "done a 0 ok", "done a 0 lis"]),
     ({"decor": "hit", "ttl": 16, "inner": 0, "hits": 2, "upd": 2, "bg": 0, "store": "plain"},
      ["call a ok", "call a lis", "adv 15", "adv 1"]),
+]
+
+# mode script: the store step fails (condition / callable ttl / SET; listed / unlisted) or turns the result down, with
+# and without an older stored result, young / stale / expired
+ENUM_SCRIPT = [
+    ({"decor": "fail", "ttl": 16, "inner": 0, "hits": 0, "upd": 0, "bg": 0, "store": "plain", "mode": "script"},
+     ["call a ok", "call a lis", "call a cL", "call a tU", "call a sL", "call a rej", "adv 15", "adv 1"]),
+    ({"decor": "soft", "ttl": 16, "inner": 4, "hits": 0, "upd": 0, "bg": 0, "store": "plain", "mode": "script"},
+     ["call a ok", "call a lis", "call a tL", "call a cU", "call a sL", "call a rej", "adv 4", "adv 12"]),
+    ({"decor": "early", "ttl": 16, "inner": 4, "hits": 0, "upd": 0, "bg": 0, "store": "plain", "mode": "script"},
+     ["call a ok", "call a lis", "call a cL", "call a sU", "call a rej", "adv 5", "adv 11"]),
+    ({"decor": "early", "ttl": 16, "inner": 4, "hits": 0, "upd": 0, "bg": 1, "store": "plain", "mode": "script"},
+     ["call a ok", "call a cL", "call a rej", "adv 5", "done a 0 ok", "done a 0 sL", "done a 0 rej"]),
+    ({"decor": "hit", "ttl": 16, "inner": 0, "hits": 2, "upd": 2, "bg": 0, "store": "plain", "mode": "script"},
+     ["call a ok", "call a lis", "call a sL", "call a cU", "call a rej", "adv 16"]),
+    ({"decor": "hit", "ttl": 16, "inner": 0, "hits": 2, "upd": 1, "bg": 1, "store": "plain", "mode": "script"},
+     ["call a ok", "call a sU", "call a rej", "done a 0 ok", "done a 0 sL", "done a 0 cL", "done a 0 rej"]),
 ]
 
 
